@@ -207,10 +207,27 @@ def _html_doc(seed, feature, twin, fmt):
         # the markup ends in running text (no closing tags) whose last word holds a bare '&' (twin: the word 'and')
         a, b = exp.text(tk.new("b"), 0), exp.text(tk.new("b"), 0)
         tail = f"<p>{a} {b} R and D" if twin else f"<p>{a} {b} R&D"
-    html = (f'<!DOCTYPE html><html lang="en"><head><meta charset="utf-8"><title>{escape(meta["title"])}</title>'
+    charset, decl = "utf-8", '<meta charset="utf-8">'
+    if feature == "legacy-charset-declared":
+        crng = random.Random(f"html-charset:{seed}")
+        for k in ("title", "author", "description"):
+            meta[k] = meta[k].split(" ")[0] + crng.choice([" Caf\u00e9 Z\u00fcrich", " \u00c5ngstr\u00f6m", " pi\u00f1ata \u00a9"])
+        exp.meta = dict(meta)
+        legacy = crng.choice(["windows-1252", "ISO-8859-1", "iso-8859-15", "cp1252"])
+        charset = "utf-8" if twin else legacy
+        decl = crng.choice([
+            "<meta charset={cs}>", '<meta charset="{cs}">', "<meta charset='{cs}' />",
+            '<meta http-equiv="Content-Type" content="text/html; charset={cs}">',
+            '<meta content="text/html; charset={cs}" http-equiv="Content-Type">',
+            "<META HTTP-EQUIV='content-type' CONTENT='text/html;charset={cs}'>",
+            '<meta name="generator" content="verif"><meta   http-equiv=Content-Type   content="text/html; charset={cs}" >',
+            '<meta id="m1" content="text/html;  charset={cs}" http-equiv="content-type" />',
+        ]).format(cs=charset.upper() if crng.random() < 0.3 else charset)
+    html = (f'<!DOCTYPE html><html lang="en"><head>{decl}<title>{escape(meta["title"])}</title>'
             f'<meta name="author" content="{escape(meta["author"], {chr(34): "&quot;"})}"><meta name="keywords" content="{meta["keywords"]}">'
             f'<meta name="description" content="{escape(meta["description"], {chr(34): "&quot;"})}"></head><body>{body}{tail}')
-    return html.encode("utf-8"), exp
+    return html.encode("iso-8859-1" if charset.lower() == "iso-8859-1" else ("iso-8859-15" if charset.lower() == "iso-8859-15" else ("cp1252" if charset != "utf-8" else "utf-8"))), exp
+
 
 
 def build_html(seed, feature=None, twin=False):
@@ -315,8 +332,13 @@ def build_epub(seed, feature=None, twin=False):
     return bio.getvalue(), exp
 
 
+HTML_ONLY_FEATURES = dict(HTML_FEATURES, **{
+    "legacy-charset-declared": "a page in windows-1252 / ISO-8859-1 with non-ASCII letters in title, author and description, the charset declared by a meta tag in one of the "
+                               "legal forms (unquoted charset attribute, http-equiv first or content first, upper case, single quotes, after other meta tags) (twin: the same form declaring utf-8)",
+})
+
 BUILDERS = {
-    "html": (build_html, HTML_FEATURES, "html", ".html"),
+    "html": (build_html, HTML_ONLY_FEATURES, "html", ".html"),
     "mhtml": (build_mhtml, HTML_FEATURES, "mhtml", ".mhtml"),
     "epub": (build_epub, EPUB_FEATURES, "epub", ".epub"),
 }
